@@ -1,2 +1,14 @@
 import Solvor.Net.Theorems
 /-! Axiom audit for the property theorems of C15 (run by every check). -/
+#print axioms Solvor.Net.components_count_correct
+#print axioms Solvor.Net.kcoreDef_greatest
+#print axioms Solvor.Net.coreNumDef_spec
+#print axioms Solvor.Net.prCheck_iff
+#print axioms Solvor.Net.pagerank_step_nonneg
+#print axioms Solvor.Net.pagerank_step_sum_one
+#print axioms Solvor.Net.pagerank_contraction
+#print axioms Solvor.Net.pagerank_residual_bound
+#print axioms Solvor.Net.isPartition_iff
+#print axioms Solvor.Net.louvain_partition_inv
+#print axioms Solvor.Net.louvain_output_partition
+#print axioms Solvor.Net.modularity_reported_eq
